@@ -484,10 +484,14 @@ func allProgs(nt, no int, alpha []string) [][][]op {
 
 func Run(cfg Config) *hx.Result {
 	r := hx.NewResult("C18", cfg.Module, cfg.Seed, cfg.Tier)
-	r.Rule = "configurations of <=3 goroutines x <=2 calls (LoadOrStore/Load/Store) x 2 keys (thorough: also up to 5x3x3), computing and storing values of several Go kinds (ints, errors, the nil interface, pointers, structs); every schedule is forced on the real LazySyncMap through the yield hook, observed (results, yield points, compute counts, raw cells, blocked set, and at the end the value a Load returns for every key), driven to completion and judged (compute<=1, racers agree, no placeholder/nil result, no lost store, nobody blocked, brute-force linearizability); a case is non-trivial when some call found the key absent-or-in-flight (owner or waiter); distinct by configuration+schedule"
+	r.Rule = "free-running rounds (2-6 goroutines racing LoadOrStore on a fresh key with 0-2 concurrent Loads, then a Store; no forced schedule, real parallelism): compute exactly once, racers agree, loads see nothing or the value, the later store wins; then configurations of <=3 goroutines x <=2 calls (LoadOrStore/Load/Store) x 2 keys (thorough: also up to 5x3x3), computing and storing values of several Go kinds (ints, errors, the nil interface, pointers, structs); every schedule is forced on the real LazySyncMap through the yield hook, observed (results, yield points, compute counts, raw cells, blocked set, and at the end the value a Load returns for every key), driven to completion and judged (compute<=1, racers agree, no placeholder/nil result, no lost store, nobody blocked, brute-force linearizability); a case is non-trivial when some call found the key absent-or-in-flight (owner or waiter); distinct by configuration+schedule"
 	x := &runner{cfg: cfg, r: r}
 	if len(cfg.Replay) > 0 {
 		for _, line := range cfg.Replay {
+			if strings.HasPrefix(line, "stress ") {
+				x.stress(3000)
+				continue
+			}
 			progs, sched, err := parseReplay(line)
 			if err != nil {
 				panic(err)
@@ -498,6 +502,13 @@ func Run(cfg Config) *hx.Result {
 	}
 	rng := hx.Rng(cfg.Seed, "c18")
 	thorough := cfg.Tier == "thorough"
+
+	// 0. free-running callers (no forced schedule; see stress.go)
+	if thorough {
+		x.stress(30000)
+	} else {
+		x.stress(3000)
+	}
 
 	// 1. fixed corpus, every schedule
 	for _, spec := range corpus {
